@@ -161,6 +161,23 @@ def crit_string(case, mind=None, minn=None):
     return ';'.join(parts)
 
 
+def style_params(case, kw):
+    """spell min_delta / min_npix / min_value as the case says (see gen: 'pstyle'); same meaning in every style"""
+    st = case.get('pstyle', 'py')
+    if st == 'np':
+        for key in ('min_delta', 'min_npix', 'min_value'):
+            if key in kw and not isinstance(kw[key], str):
+                kw[key] = (np.float64 if isinstance(kw[key], float) else np.int64)(kw[key])
+    elif st == 'half' and kw.get('min_npix', 0) >= 1:
+        kw['min_npix'] = kw['min_npix'] - 0.5
+
+
+def npix_param(v):
+    """the integer demand a recorded min_npix stands for (2.5 pixels = at least 3)"""
+    import math
+    return int(math.ceil(float(v)))
+
+
 def compute_impl(case, verbose=False, neighbours_obj=None):
     """run Dendrogram.compute on the case; returns (dendrogram, data array)"""
     a = make_array(case)
@@ -175,6 +192,7 @@ def compute_impl(case, verbose=False, neighbours_obj=None):
     md = Fraction(case['mind'], 2 ** case['fb'])
     kw['min_delta'] = int(md) if md.denominator == 1 else float(md)
     kw['min_npix'] = case['minn']
+    style_params(case, kw)
     fs = user_criteria(case, unit)
     if fs:
         kw['is_independent'] = fs if len(fs) > 1 or case.get('crit_as_list') else fs[0]
